@@ -12,7 +12,7 @@ ID = "C13"
 LEAN_MODULE = "CKT.Props.C13"
 THEOREMS = ["CKT.C13." + t for t in ["split_total", "mapM_total", "step_total", "run_total", "key0_bit", "key1_bit", "key0_other", "key1_other",
                                       "reset_keys", "conditioned_refused", "classical_arg_refused"]]
-RULE = ("random Clifford circuits with measurements and resets in any order on 1-5 qubits and 0-5 classical bits, up to 20 instructions, bits unused, "
+RULE = ("random Clifford circuits (plus exact rational rotations, incl. near-deterministic small angles) with measurements and resets in any order on 1-5 qubits and 0-5 classical bits, up to 20 instructions, bits unused, "
         "written once or overwritten (incl. re-measuring a bit that already holds 1), barriers, conditioned operations and gates carrying classical "
         "bits (refused); non-Clifford rotations (incl. near-deterministic small angles) only in the failing-input search against the independent "
         "density-matrix simulator; model probabilities are exact rationals, compared to 1e-9; distinct by payload")
@@ -31,7 +31,11 @@ def _gen(rng, tier, clifford=True):
     instrs = []
     for _ in range(rng.randint(1, 14 if tier == "quick" else 20)):
         r = rng.random()
-        if r < 0.35:
+        if r < 0.08:
+            # exact rational rotation: half-angle (cos, sin) = ((1-t^2)/(1+t^2), 2t/(1+t^2)); small t = near-deterministic outcomes
+            t = rng.choice(["1/1000", "1/3000", "1/100000", "1/3", "2/5", "-1/2", "1/40000"])
+            instrs.append({"name": rng.choice(["ry_t", "rx_t"]), "qubits": [rng.randrange(nq)], "t": t})
+        elif r < 0.35:
             q = rng.randrange(nq)
             if clifford:
                 instrs.append({"name": rng.choice(CLIFF1), "qubits": [q]})
@@ -91,6 +95,11 @@ def _circ(payload):
             op = Instruction("opaque_cl", 1, 1, [])
         elif ins["name"] == "barrier":
             op = canon.mk_op("barrier", [len(qs)])
+        elif ins["name"] in ("ry_t", "rx_t"):
+            import math
+            t = Fraction(ins["t"])
+            c, sn = (1 - t * t) / (1 + t * t), 2 * t / (1 + t * t)
+            op = canon.mk_op(ins["name"][:2], [2 * math.atan2(float(sn), float(c))])
         else:
             op = canon.mk_op(ins["name"], ins.get("params", ()))
         if ins.get("cond"):
@@ -102,7 +111,7 @@ def _circ(payload):
 
 def model_line(kind, payload):
     return {"op": "c13.simulate", "nq": payload["nq"],
-            "instrs": [{"name": i["name"], "qubits": i["qubits"], "clbits": i.get("clbits", []), "conditioned": bool(i.get("cond"))} for i in payload["instrs"]]}
+            "instrs": [{"name": i["name"], "qubits": i["qubits"], "clbits": i.get("clbits", []), "conditioned": bool(i.get("cond")), "t": i.get("t", "0/1")} for i in payload["instrs"]]}
 
 
 def run_real(kind, payload):
